@@ -25,6 +25,15 @@ def stepOf (s : String) : Option StepK :=
 
 def natJ (n : Nat) : Json := Json.num ⟨n, 0⟩
 
+/-- a start from explicit ids (`Vids:k`, `Vhasid:k`, family iso only) is the step `V` on k vertices -/
+def idStart (ss : List String) : Option (Option Nat × List StepK) :=
+  match ss with
+  | s :: rest =>
+    match s.splitOn ":" with
+    | ["Vids", k] | ["Vhasid", k] => do pure (some (← k.toNat?), .V :: (← rest.mapM stepOf))
+    | _ => do pure (none, ← ss.mapM stepOf)
+  | [] => some (none, [])
+
 def doneObs (rows : Nat) : Json :=
   Json.mkObj [("done", Json.bool true), ("rows", natJ rows), ("leak", Json.bool false), ("tmp", natJ 0)]
 
@@ -55,8 +64,11 @@ def step (_ : Unit) (j : Json) : Unit × Json :=
       | none => ((), Drv.bad "slack: not a linear chain")
     | none => ((), Drv.bad "slack: cannot decode")
   | some "run" =>
-    match (str? j "fam").bind famOf, nat? j "n", (strs? j "steps").bind (fun ss => ss.mapM stepOf), int? j "cancel", int? j "slack" with
-    | some fam, some n, some steps, some cancel, some slack =>
+    match (str? j "fam").bind famOf, nat? j "n", (strs? j "steps").bind idStart, int? j "cancel", int? j "slack" with
+    | some fam, some n0, some (lim, steps), some cancel, some slack =>
+      -- V(k ids) / V().hasId(k ids) on isolated vertices v0 … v(n-1): the rows of V() on the
+      -- first min k n of them (vertices without edges are independent of each other)
+      let n := match lim with | some k => (if fam == .iso then min k n0 else n0) | none => n0
       let model := runModel Gen.bothConcurrent GripGen.BuffersC07.histogramAdvanceGuard fam n steps
       let spec := runModel true true fam n steps
       if cancel ≥ 0 && slack ≥ 0 && pathSlack steps != some slack.toNat then
